@@ -240,12 +240,11 @@ func (env *Env) ident(name string) Term {
 }
 
 func (env *Env) importedPkg(name string) *types.Package {
-	if env.pkg == nil {
-		return nil
-	}
-	for _, ip := range env.pkg.Imports() {
-		if ip.Name() == name {
-			return ip
+	if env.pkg != nil {
+		for _, ip := range env.pkg.Imports() {
+			if ip.Name() == name {
+				return ip
+			}
 		}
 	}
 	// allow any loaded package by name
